@@ -59,6 +59,9 @@ pub struct Profile {
     pub check_cleanup: bool,
     /// Run through the server's update cycle and keep a history (C22, C34).
     pub via_server: bool,
+    /// Chance (percent) that a run goes through the server's update cycle
+    /// although `via_server` is off.
+    pub via_server_pct: u64,
     /// Use hostile TAL labels (C22).
     pub hostile_labels: bool,
     /// Candidate (refresh, min-refresh) settings (C34).
@@ -119,6 +122,7 @@ impl Profile {
             size_limits: false,
             check_cleanup: false,
             via_server: false,
+            via_server_pct: 0,
             hostile_labels: false,
             refresh_swarm: false,
             allow_dubious_pct: 0,
@@ -320,7 +324,12 @@ pub fn run(
 }
 
 impl Sim {
-    pub fn new(seed: u64, profile: Profile, scratch: &Path) -> Self {
+    pub fn new(seed: u64, mut profile: Profile, scratch: &Path) -> Self {
+        if !profile.via_server
+            && mix(&[seed, 10]) % 100 < profile.via_server_pct
+        {
+            profile.via_server = true;
+        }
         let _ = std::fs::remove_dir_all(scratch);
         std::fs::create_dir_all(scratch.join("cache")).unwrap();
         std::fs::create_dir_all(scratch.join("tals")).unwrap();
@@ -1976,6 +1985,31 @@ impl Sim {
         }
         if !rejected_v4.is_empty() || !rejected_v6.is_empty() {
             self.stats.probe("rejected-points");
+        }
+        for outcome in &expect.outcomes {
+            if outcome.used != Used::Rejected { continue }
+            let all4 = outcome.res.v4.iter().any(|p| p.len == 0);
+            let all6 = outcome.res.v6.iter().any(|p| p.len == 0);
+            let some4: Vec<P4> = outcome.res.v4.iter().filter(|p| p.len != 0)
+                .copied().collect();
+            let some6: Vec<P6> = outcome.res.v6.iter().filter(|p| p.len != 0)
+                .copied().collect();
+            if all4 && !some6.is_empty() {
+                self.stats.probe("rejected-all-v4-some-v6");
+                if expect.loose.origins.iter().any(|(_, pfx, _)| {
+                    matches!(pfx, Pfx::V6(p) if some6.iter().any(|r| r.overlaps(*p)))
+                }) {
+                    self.stats.probe("vrp-in-v6-of-rejected-all-v4");
+                }
+            }
+            if all6 && !some4.is_empty() {
+                self.stats.probe("rejected-all-v6-some-v4");
+                if expect.loose.origins.iter().any(|(_, pfx, _)| {
+                    matches!(pfx, Pfx::V4(p) if some4.iter().any(|r| r.overlaps(*p)))
+                }) {
+                    self.stats.probe("vrp-in-v4-of-rejected-all-v6");
+                }
+            }
         }
         for outer in &rejected_v4 {
             for inner in &rejected_v4 {
